@@ -840,7 +840,7 @@ CTX_POOL = [
     'let($x) -> $1', '$1', '[[1, 2]].select($.unpack() -> $1)',
 ]
 CTX_NAMES = ['x', '$x', 'y', '', '$', '$1', '1', 'z', 'v']
-CTX_FNAMES = ['f', 'g', 'f_', '#finalize']
+CTX_FNAMES = ['f', 'g', 'f_']
 
 
 def run_ctx(world, drv, res, rng, tier, hist):
@@ -848,36 +848,54 @@ def run_ctx(world, drv, res, rng, tier, hist):
     n = 60 if tier == 'quick' else 400
     batch, metas = [], []
     for ci in range(n):
-        ops = [dict(o='plain', parent=None)]
         history = c17.gen_history(rng, rng.randrange(3, 16))
-        # the C17 generator starts with its own root: keep it, the stdlib is attached on the real side only
-        ops = history
         impl = c17.Impl()
         real_ops, obs = [], []
-        ok = True
         lib = world.bare if ci % 3 == 0 else world.root
         hist['ctx-forest-' + ('without' if lib is world.bare else 'with') + '-finalize'] = \
             hist.get('ctx-forest-' + ('without' if lib is world.bare else 'with') + '-finalize', 0) + 1
-        for op in ops:
-            if op['o'] == 'plain' and op['parent'] is None:
-                impl.hs.append(contexts.Context(lib))        # real roots sit on the standard library
-                r = 'ok'
-            else:
-                r = impl.step(op)
-            real_ops.append((op, r))
+        # the library layers are part of the forest on both sides: handles 0..k-1 (no data; `#finalize` where it is)
+        chain = []
+        c = lib
+        while c is not None:
+            chain.append(c)
+            c = c.parent
+        chain.reverse()
+        k = len(chain)
+        impl.hs = list(chain)
+        ops = [dict(o='plain', parent=None if i == 0 else i - 1) for i in range(k)]
+        for i, c in enumerate(chain):
+            if '#finalize' in getattr(c, '_functions', {}):
+                ops.append(dict(o='reg', h=i, f='#finalize', id=999, x=False))
+        nlib = len(ops)
+
+        def remap(op):
+            op = dict(op)
+            if 'parent' in op:
+                op['parent'] = k - 1 if op['parent'] is None else op['parent'] + k
+            for f in ('h', 'target'):
+                if f in op:
+                    op[f] += k
+            if 'members' in op:
+                op['members'] = [m + k for m in op['members']]
+            return op
+        ops += [remap(op) for op in history]
+        for op in ops[nlib:]:
+            impl.step(op)
         nh = len(impl.hs)
-        if nh == 0:
+        if nh <= k:
             continue
         all_ops = list(ops)
         evals = []
         for _ in range(rng.randrange(1, 4)):
-            h = rng.randrange(nh)
+            h = rng.randrange(k, nh)
             text = rng.choice(CTX_POOL)
             with_data = rng.random() < 0.8
             v = rng.choice([0, 1, 5, 7])
             ctx = impl.hs[h]
+            cin = bool(rng.randrange(2))
             try:
-                st = world.parse(text, conv_in=bool(rng.randrange(2)))
+                st = world.parse(text, conv_in=cin)
             except Exception:   # noqa
                 continue
             objs = ctx_objects(ctx)
@@ -895,7 +913,7 @@ def run_ctx(world, drv, res, rng, tier, hist):
             if with_data and events and events[0][0] == 'set' and events[0][1] is ctx:
                 idx = 1                 # `context['$'] = ..` of Statement.evaluate
             frames = [ctx]
-            for kind, obj, a, k, r in events[idx:]:
+            for kind, obj, a, kw_, r in events[idx:]:
                 if kind == 'child':
                     if not any(obj is f for f in frames):
                         continue
@@ -924,7 +942,7 @@ def run_ctx(world, drv, res, rng, tier, hist):
                 res.fail('oracle', 'context-changed', 'ctx: evaluating %r on a %s changed the host chain: %s' % (
                     text, type(ctx).__name__, d), dict(part='ctx', ops=ops, text=text, h=h, data=v if with_data else None))
                 return
-            evals.append(dict(o='eval', h=h, data=with_data, v=v, fin=999, steps=steps))
+            evals.append(dict(o='eval', h=h, data=with_data, v=v, fin=999, steps=steps, text=text, cin=cin))
             all_ops = all_ops + [evals[-1]]
             real_ops.append((evals[-1], 'ok'))
         if not evals:
@@ -933,6 +951,7 @@ def run_ctx(world, drv, res, rng, tier, hist):
         final_obs = observe_ctx(impl)
         batch.append(dict(op='ctx', ops=all_ops, names=CTX_NAMES, fnames=CTX_FNAMES))
         metas.append((all_ops, final_obs))
+        batch[-1]['bare'] = lib is world.bare
     if drv is None or not batch:
         return
     out = drv.ask({'p': 'C09', 'cases': batch})['res']
@@ -968,12 +987,7 @@ def observe_ctx(impl):
 def canon_obs(obs):
     if obs is None:
         return None
-    out = []
-    for o in obs:
-        # functions of the standard library / of the #finalize wrapper are outside the model's forest
-        col = [[l for l in layers if l and all(i >= 0 for i in l)] for layers in o['col'][:3]]
-        out.append(dict(get=o['get'], has=o['has'], keys=o['keys'], col=col, gf=o['gf'][:3]))
-    return out
+    return [dict(get=o['get'], has=o['has'], keys=o['keys'], col=o['col'], gf=o['gf']) for o in obs]
 
 
 def diff_obs(a, b):
